@@ -147,6 +147,74 @@ def rule_deq(ctx, rep):
         rep.check(okd and okn, "C12.dummy", g.name + ".guard", "destroy frees only a lone dummy head (else -EPERM)", "destroy frees the head without checking {dummy, no successor}", [fr[0].where()])
 
 
+def rule_skeleton(ctx, rep):
+    """What the surrounding functions must supply for the enqueue / dequeue steps to mean anything: the head cmpxchg decides (a node is
+    handed out / a dummy retired only by the winner, the loser retries); make_dummy marks the node as a dummy, gives it the successor and
+    the queue it was asked for; enqueue_dummy enqueues a *fresh* dummy; init installs one dummy as both head and tail and records the
+    call_rcu function dummies are retired through."""
+    m = ctx.mod("cds", "perfn")
+    for lib, f in copies(ctx, "_cds_lfq_dequeue_rcu"):
+        if lib != "cds":
+            continue
+        rep.touch(f)
+        hx = [e for e in pat.accesses(f, HEAD, ("cmpxchg",))]
+        if len(hx) != 1:
+            continue
+        c = hx[0].inst
+        win = [(t.blk.id, s_) for t, s_, a in pat.branch_edges_on(f, lambda a: a[0] == "eq" and any(isinstance(x, tuple) and x[0] in ("asm", "cmpxchg", "ev") and x[-1] == c.id or (isinstance(x, tuple) and x[0] == "ev" and x[1][-1] == c.id) for x in (a[1], a[2])))]
+        lose = [(t.blk.id, s_) for t, s_, a in pat.branch_edges_on(f, lambda a: a[0] == "ne" and any(isinstance(x, tuple) and x[0] in ("asm", "cmpxchg", "ev") and x[-1] == c.id or (isinstance(x, tuple) and x[0] == "ev" and x[1][-1] == c.id) for x in (a[1], a[2])))]
+        if not win or not lose:
+            rep.unk("C12.skeleton", f.name + ".cas-decides", "the result of the head cmpxchg does not steer a branch this rule recognises")
+        else:
+            retire = [x for x in f.calls() if m.fn(x.callee) is not None and m.fn(x.callee).srcname == "rcu_free_dummy"]
+            rets = [r for r in f.rets()]
+            fresh = pat.loads(f, HEAD)          # a new attempt starts by re-reading q->head
+            hit, _ = f.reach([c], rets + retire, edge_ok=pat.block_edge_filter(win), avoid=lambda i: i in fresh)
+            rep.check(hit is None, "C12.skeleton", f.name + ".cas-decides", "after the head cmpxchg a node is returned / a dummy retired only along its success edge",
+                      "after a *failed* head cmpxchg dequeue still %s: the node belongs to the dequeuer that won - it is handed out (or retired) twice"
+                      % ("returns" if hit is not None and hit.op == "ret" else "retires the dummy"), [c.where()])
+            for b_, s_ in win[:1]:
+                st = f.blocks[s_].insts[0]
+                back = f.reach([st], fresh, avoid=lambda i: i in retire or i.op == "ret", include_start=True)[0]
+                rep.check(back is None, "C12.skeleton", f.name + ".winner-delivers", "the winner of the head cmpxchg returns the node or retires the dummy before trying again",
+                          "after a *successful* head cmpxchg dequeue goes round again without returning the node or retiring the dummy: the node it unlinked is lost", [c.where()])
+    for g in m.by_src("make_dummy"):
+        rep.touch(g)
+        for s_ in g.all_insts():
+            if s_.op != "store":
+                continue
+            fld = pat.last_field(s_.d["ap"])
+            v = ir.expr(g, s_.args[0], 3)
+            if fld == DUMMY:
+                k = ir.const_of(g, s_.args[0])
+                rep.check(k is not None and k != 0, "C12.skeleton", g.name + ".dummy-flag", "make_dummy marks the node (dummy = %s)" % k, "make_dummy stores dummy = %s: dequeue takes the node for a user node and returns it" % (k if k is not None else ir.expr_str(v)), [s_.where()])
+            elif fld == NEXT:
+                rep.check(v == ("arg", 1), "C12.skeleton", g.name + ".next", "the dummy's successor is the one asked for", "the dummy's next is %s" % ir.expr_str(v), [s_.where()])
+            elif fld == "cds_lfq_node_rcu_dummy.q":
+                rep.check(v == ("arg", 0), "C12.skeleton", g.name + ".q", "the dummy remembers its queue", "the dummy's queue pointer is %s" % ir.expr_str(v), [s_.where()])
+        flds = set(pat.last_field(s_.d["ap"]) for s_ in g.all_insts() if s_.op == "store")
+        rep.check("cds_lfq_node_rcu_dummy.q" in flds, "C12.skeleton", g.name + ".q-set", "make_dummy records the queue (rcu_free_dummy retires the dummy through q->queue_call_rcu)",
+                  "make_dummy leaves dummy->q uninitialised: retiring the dummy calls through a garbage pointer", [g.name])
+    for g in m.by_src("enqueue_dummy"):
+        rep.touch(g)
+        mk = [c for c in g.calls() if m.fn(c.callee) is not None and m.fn(c.callee).srcname == "make_dummy"]
+        en = [c for c in g.calls() if m.fn(c.callee) is not None and m.fn(c.callee).srcname == "_cds_lfq_enqueue_rcu"]
+        if not mk or not en:
+            rep.bad("C12.skeleton", g.name, "enqueue_dummy does not %s: dequeue of the last node advances head to NULL" % ("allocate a dummy" if not mk else "enqueue the dummy"), [g.name])
+        else:
+            v = ir.expr(g, en[0].args[1], 3)
+            rep.check(v[0] == "call" and v[2] == mk[0].id and ir.expr(g, en[0].args[0], 3) == ("arg", 0) and ir.const_of(g, mk[0].args[1]) == 0, "C12.skeleton", g.name, "enqueue_dummy enqueues a fresh dummy (next = NULL) on its queue",
+                      "enqueue_dummy enqueues %s" % ir.expr_str(v), [en[0].where()])
+    for g in m.by_src("_cds_lfq_init_rcu"):
+        rep.touch(g)
+        st = dict((pat.last_field(s_.d["ap"]), ir.expr(g, s_.args[0], 4)) for s_ in g.all_insts() if s_.op == "store")
+        t, h, qc = st.get(TAIL), st.get(HEAD), st.get("cds_lfq_queue_rcu.queue_call_rcu")
+        okt = t is not None and t[0] == "call" and m.fn(t[1]) is not None and m.fn(t[1]).srcname == "make_dummy"
+        okh = h is not None and (h == t or (h[0] == "load" and h[1].endswith(TAIL)))
+        rep.check(okt and okh, "C12.skeleton", g.name + ".one-dummy", "init installs one fresh dummy as head and tail", "init sets tail = %s, head = %s" % (ir.expr_str(t) if t else "unset", ir.expr_str(h) if h else "unset"), [g.name])
+        rep.check(qc == ("arg", 1), "C12.skeleton", g.name + ".call_rcu", "init records the caller's call_rcu function", "queue_call_rcu is %s" % (ir.expr_str(qc) if qc else "not set"), [g.name])
+
+
 def rule_who(ctx, rep):
     """q->tail and q->head move only by compare-and-swap, wherever they are written: the only plain stores are the initialisation (and the
     destroy-time checks write nothing).  An unconditional store anywhere - a `helping` fix-up in the dummy hand-over, a reset in a
@@ -172,6 +240,7 @@ META["explanation"] += " " + 'Also (round 11): q->head / q->tail are written by 
 
 RULES = [
     ("C12.who", rule_who),
+    ("C12.skeleton", rule_skeleton),
     ("C12.enq", rule_enq),
     ("C12.deq", rule_deq),
     ("C12.exported", lambda c, r: __import__("sa.rules.c10", fromlist=["x"]).rule_wrappers(c, r, "C12.exported", ("lfq",))),
